@@ -186,6 +186,22 @@ func FullMatch(expr string, name string) bool {
 }
 
 func (d *Doc2) Resolve(pubkey phase0.BLSPubKey, name string, fFR bellatrix.ExecutionAddress, fGL uint64) *Resolved {
+	return d.ResolveWith(pubkey, name, fFR, fGL, nil).Resolved
+}
+
+// ResolveResult also says whether a proposer entry matched.
+type ResolveResult struct {
+	Resolved *Resolved
+	Matched  bool
+}
+
+// ResolveWith resolves with a custom matcher for proposer entries given by key (nil: the entry's key number).
+func (d *Doc2) ResolveWith(pubkey phase0.BLSPubKey, name string, fFR bellatrix.ExecutionAddress, fGL uint64, keyMatch func(*Proposer) bool) ResolveResult {
+	r := d.resolveWith(pubkey, name, fFR, fGL, keyMatch)
+	return r
+}
+
+func (d *Doc2) resolveWith(pubkey phase0.BLSPubKey, name string, fFR bellatrix.ExecutionAddress, fGL uint64, keyMatch func(*Proposer) bool) ResolveResult {
 	res := &Resolved{FR: fFR, Relays: map[string]*RRelay{}}
 	if d.FR != nil {
 		res.FR = FRAddr(*d.FR)
@@ -204,7 +220,7 @@ func (d *Doc2) Resolve(pubkey phase0.BLSPubKey, name string, fFR bellatrix.Execu
 	var P *Proposer
 	for _, p := range d.Proposers {
 		if p.KeyNo >= 0 {
-			if PubOf(p.KeyNo) == pubkey {
+			if (keyMatch == nil && PubOf(p.KeyNo) == pubkey) || (keyMatch != nil && keyMatch(p)) {
 				P = p
 				break
 			}
@@ -214,7 +230,7 @@ func (d *Doc2) Resolve(pubkey phase0.BLSPubKey, name string, fFR bellatrix.Execu
 		}
 	}
 	if P == nil {
-		return res
+		return ResolveResult{res, false}
 	}
 	if P.FR != nil {
 		res.FR = FRAddr(*P.FR)
@@ -249,7 +265,7 @@ func (d *Doc2) Resolve(pubkey phase0.BLSPubKey, name string, fFR bellatrix.Execu
 		}
 		res.Relays[addr] = r
 	}
-	return res
+	return ResolveResult{res, true}
 }
 
 func Diff(want *Resolved, got *beaconblockproposer.ProposerConfig) string {
